@@ -42,7 +42,9 @@ def rand_case(rng, cid):
         elif r < 0.62:
             st.append(S("sleep", n=rng.choice([1, 3, R, 2 * R, T, T + T // 2, 2 * T + 10])))
         elif r < 0.74:   # concurrent calls on one key while a first resolution (if any) is held
-            st += [S("gate", key=k, s="call"), S("call", p, k), S("await", key=k, s="call", n=40)]
+            # (every earlier call has returned: a call still on its way would be caught by the gate and the script,
+            # not the code, would hang)
+            st += [S("wait", 0), S("gate", key=k, s="call"), S("call", p, k), S("await", key=k, s="call", n=40)]
             for q in rng.sample([1, 2, 3], rng.randint(1, 3)):
                 if q != p:
                     st.append(S("call", q, rng.choice([k, k, rng.choice(keys)])))
@@ -112,7 +114,8 @@ def spec_checks(ctx, q):
     if not q:
         jobs += [("LBCache", "LBCache_mc_rt2.cfg", "as LBCache_mc with 2 refresh ticks"),
                  ("LBCache", "LBCache_mc3_thorough.cfg", "1 key, 3 callers, 3 versions, 3 watcher ticks, 2 refresh ticks"),
-                 ("LBCache", "LBCache_mc_thorough.cfg", "2 keys, 2 callers x 2 calls")]
+                 ("LBCache", "LBCache_mc_thorough.cfg", "2 keys, 2 callers x 2 calls"),
+                 ("LBCacheObsMC", "LBCacheObsMC_rt3.cfg", "the observer accepts every behaviour with 3 refresh ticks")]
     with concurrent.futures.ThreadPoolExecutor(max_workers=2 if q else 3) as ex:
         futs = [ex.submit(lib.spec_check, ctx, m, c, w, 1500, None, 2, None, n) for m, c, n in jobs]
         neg = [ex.submit(lib.tlc, ctx, "LBCache", c, 1, 600) for c in ("LBCache_asis.cfg", "LBCache_orphan.cfg")]
@@ -164,7 +167,7 @@ def run(ctx):
     gen, n = lib.gen_cases(ctx, "LBCacheGen", "LBCacheGen_quick.cfg" if q else "LBCacheGen_thorough.cfg")
     cases = [json.loads(l) for l in open(gen)]
     rng = random.Random(ctx.seed * 7919 + (0 if q else 13))
-    nrand = 260 if q else 6000
+    nrand = 400 if q else 6000
     cases += [rand_case(rng, n + 1 + i) for i in range(nrand)]
     if not q:   # the enumerated histories again with other intervals
         for rep, (R, T) in enumerate([(10, 40), (30, 100)]):
@@ -284,7 +287,7 @@ def evidence(ctx, cases, traces, n_enum, q):
         "LBCacheObs, which LBCacheObsMC shows to accept every behaviour of LBCache within the checked bounds",
         "the recording wrapper serialises calls into the real weightedBalancer (its own concurrency is not under test)",
         "expiry liveness is judged with a generous bound: the driver waits max(1.5 s, 15 x ExpireInterval) for Delete; "
-        "'a used entry is kept' is judged as: no Delete within ExpireInterval/5 after the start of a call that used the "
+        "'a used entry is kept' is judged as: no Delete within ExpireInterval/2 after the start of a call that used the "
         "entry, and only when the driver's heartbeat saw no scheduling stall > 10 ms in the last 2 ExpireIntervals; a "
         "rejection must be reproduced in 2 of 3 solitary re-runs",
         "goroutine identity is taken from runtime.Stack; TLC and the CommunityModules Json reader are trusted",
